@@ -173,10 +173,14 @@ fn new_descriptor(s: &mut Simk, ring_fd: i32, id: u64, direct: bool, what_: &'st
         let did = s.next_direct_id;
         let ring = s.rings.get_mut(&ring_fd).unwrap();
         let Some(files) = ring.files.as_mut() else { return Err(libc::ENXIO) };
-        let Some(idx) = files.iter().position(|f| f.is_none()) else { return Err(libc::ENFILE) };
+        // Any free slot is a legal choice for the kernel; with a big table use
+        // indices that cannot be mistaken for regular descriptor numbers.
+        let base = if files.len() > DIRECT_BASE { DIRECT_BASE } else { 0 };
+        let Some(idx) = (base..files.len()).find(|i| files[*i].is_none()) else { return Err(libc::ENFILE) };
         files[idx] = Some(did);
         s.next_direct_id += 1;
         s.direct_files.insert(did, true);
+        s.direct_creator.insert(did, id);
         s.reqs.get_mut(&id).unwrap().created.push((idx as i32, true));
         Ok(idx as i32)
     } else {
@@ -197,6 +201,9 @@ pub fn direct_closed(s: &mut Simk, did: u64, idx: usize, how: &str) {
     }
 }
 
+/// First direct-descriptor index handed out when the table is large enough.
+pub const DIRECT_BASE: usize = 3000;
+
 /// IORING_OP_CLOSE.
 pub fn do_close(s: &mut Simk, ring_fd: i32, sqe: &Sqe) -> i32 {
     s.counters.closes += 1;
@@ -216,10 +223,17 @@ pub fn do_close(s: &mut Simk, ring_fd: i32, sqe: &Sqe) -> i32 {
                 direct_closed(s, did, idx, "close-op");
                 0
             }
-            None => -libc::EBADF,
+            None => {
+                s.violation("C07", "direct-close-empty-slot:close-op", format!("IORING_OP_CLOSE for direct descriptor {idx}, which is not in use (regular descriptor closed as direct, or closed twice)"));
+                -libc::EBADF
+            }
         }
     } else {
         if sqe.flags() & IOSQE_FIXED_FILE != 0 {
+            return -libc::EBADF;
+        }
+        if (DIRECT_BASE as i32..4096).contains(&sqe.fd()) {
+            s.violation("C07", "direct-closed-as-regular:close-op", format!("IORING_OP_CLOSE with regular descriptor number {}, which is a direct descriptor index", sqe.fd()));
             return -libc::EBADF;
         }
         fds::ring_close(sqe.fd())
